@@ -98,7 +98,8 @@ def writeSelections (fmt : Format) (level : Nat) (m : SelMap) : Str :=
 
 mutual
 /-- `graphql_type_annotation_from_type_annotation(t).to_string()`; `none` = `.unwrap()` on a
-union without variants.  Note the `Plural` arm: a non-null list is printed without `!`. -/
+union without variants.  Note the `Plural` arm: a non-null list is printed without `!`
+(a `fix:` for this is in progress in /repo; when it lands the arm becomes `[91] ++ t ++ [93, 33]`). -/
 def gqlType : TypeAnn → Option Str
   | .scalar name => some (name ++ [33])
   | .plural inner => (gqlType inner).map fun t => [91] ++ t ++ [93]
